@@ -65,7 +65,7 @@ def conc_replay(ctx):
     deep = None if ctx.quick else {"Limits": "{1,2,3}", "ExtraPush": 3, "ExtraPop": 2}
     graph_replay(ctx, SPEC, SPEC, "LimitedQueue_conc_replay.cfg", "conc_replay", rpc, cproj,
                  header_fn=lambda k, st0: {"threads": threads, "limit": st0["limit"]}, must_take=ACTIONS,
-                 max_paths=None, extra_random=300 if ctx.quick else 3000,
+                 max_paths=5000 if ctx.quick else None, extra_random=300 if ctx.quick else 3000,
                  constants=deep, tlc_kw={"workers": WORKERS})
     if ctx.quick:
         ctx.exhaustive = False
